@@ -1024,6 +1024,180 @@ func (fx *Facts) errBranches(e ssa.Value) (nonNil []*ssa.BasicBlock, tested bool
 	return
 }
 
+// errTest: one branch on the nil-ness of an error value: the block that tests, the block entered when it is non-nil,
+// and the value tested (e itself or an alias - possibly a phi that merges e with other errors).
+type errTest struct {
+	from, to *ssa.BasicBlock
+	val      ssa.Value
+}
+
+func (fx *Facts) errTests(e ssa.Value) []errTest {
+	var out []errTest
+	for _, a := range fx.aliasesOf(e) {
+		for _, ref := range nonDebugRefs(a) {
+			b, ok := ref.(*ssa.BinOp)
+			if !ok {
+				continue
+			}
+			x, _, isNT := nilTest(b)
+			if !isNT || x != a {
+				continue
+			}
+			conds := []ssa.Value{b}
+			for i := 0; i < len(conds); i++ {
+				for _, r2 := range nonDebugRefs(conds[i]) {
+					switch y := r2.(type) {
+					case *ssa.UnOp:
+						if y.Op == token.NOT {
+							conds = append(conds, y)
+						}
+					case *ssa.If:
+						_, tnn, _ := nilTest(y.Cond)
+						to := y.Block().Succs[1]
+						if tnn {
+							to = y.Block().Succs[0]
+						}
+						out = append(out, errTest{y.Block(), to, a})
+					}
+				}
+			}
+		}
+	}
+	return out
+}
+
+// tookFailingEdge: path p passes a test that found the error e non-nil - the tested value being e on this path (a
+// phi that merges several errors stands for e only where the path entered it with e).
+func (fx *Facts) tookFailingEdge(p *Path, e ssa.Value) bool {
+	nonNil, isNil := fx.errOutcomesOnPath(p, e)
+	return nonNil && !isNil // found non-nil and nil on one path: not a path
+}
+
+// errOutcomesOnPath: whether path p passes a test that found e non-nil / nil (tests of a phi count where the path
+// entered the phi with e).
+func (fx *Facts) errOutcomesOnPath(p *Path, e ssa.Value) (sawNonNil, sawNil bool) {
+	al := map[ssa.Value]bool{e: true}
+	for _, a := range fx.aliasesOf(e) {
+		if _, isPhi := a.(*ssa.Phi); !isPhi {
+			al[a] = true
+		}
+	}
+	for _, t := range fx.errTests(e) {
+		took, other := false, false
+		for i := 0; i+1 < len(p.Blocks); i++ {
+			if p.Blocks[i] == t.from {
+				if p.Blocks[i+1] == t.to {
+					took = true
+				} else {
+					other = true
+				}
+			}
+		}
+		if !took && !other {
+			continue
+		}
+		v := t.val
+		okVal := true
+		for d := 0; d < 6; d++ {
+			phi, isPhi := v.(*ssa.Phi)
+			if !isPhi {
+				break
+			}
+			okVal = false
+			pb := phi.Block()
+			for i := len(p.Blocks) - 1; i > 0; i-- {
+				if p.Blocks[i] != pb {
+					continue
+				}
+				for j, pred := range pb.Preds {
+					if pred == p.Blocks[i-1] && j < len(phi.Edges) {
+						v = phi.Edges[j]
+						okVal = true
+					}
+				}
+				break
+			}
+			if !okVal {
+				break
+			}
+		}
+		same := okVal && al[v]
+		if okVal && !same {
+			for _, a := range fx.aliasesOf(v) {
+				if al[a] {
+					same = true
+				}
+			}
+		}
+		if !same {
+			continue
+		}
+		if took {
+			sawNonNil = true
+		}
+		if other {
+			sawNil = true
+		}
+	}
+	return
+}
+
+func (fx *Facts) tookFailingEdgeOld(p *Path, e ssa.Value) bool {
+	al := map[ssa.Value]bool{e: true}
+	for _, a := range fx.aliasesOf(e) {
+		if _, isPhi := a.(*ssa.Phi); !isPhi {
+			al[a] = true
+		}
+	}
+	for _, t := range fx.errTests(e) {
+		took := false
+		for i := 0; i+1 < len(p.Blocks); i++ {
+			if p.Blocks[i] == t.from && p.Blocks[i+1] == t.to {
+				took = true
+			}
+		}
+		if !took {
+			continue
+		}
+		v := t.val
+		okVal := true
+		for d := 0; d < 6; d++ {
+			phi, isPhi := v.(*ssa.Phi)
+			if !isPhi {
+				break
+			}
+			okVal = false
+			pb := phi.Block()
+			for i := len(p.Blocks) - 1; i > 0; i-- {
+				if p.Blocks[i] != pb {
+					continue
+				}
+				for j, pred := range pb.Preds {
+					if pred == p.Blocks[i-1] && j < len(phi.Edges) {
+						v = phi.Edges[j]
+						okVal = true
+					}
+				}
+				break
+			}
+			if !okVal {
+				break
+			}
+		}
+		if okVal && (al[v] || func() bool {
+			for _, a := range fx.aliasesOf(v) {
+				if al[a] {
+					return true
+				}
+			}
+			return false
+		}()) {
+			return true
+		}
+	}
+	return false
+}
+
 // isReturned: e (or an alias) is an operand of a Return.
 func (fx *Facts) isReturned(e ssa.Value) bool {
 	for _, a := range fx.aliasesOf(e) {
@@ -1108,6 +1282,42 @@ func iterationCanSkip(fi *fnInfo, S *ssa.BasicBlock) bool {
 			continue
 		}
 		if reachAvoidingBlock(B, B, S) {
+			return true
+		}
+	}
+	return false
+}
+
+// iterationCanSkipUnless: like iterationCanSkip, but an iteration that skips the append by way of a block for which
+// excused holds does not count (the skip happens only in a case the rule does not speak about).
+func iterationCanSkipUnless(fi *fnInfo, S *ssa.BasicBlock, excused func(*ssa.BasicBlock) bool) bool {
+	if !fi.reachable(S, S) {
+		return false
+	}
+	for _, B := range fi.fn.Blocks {
+		if B == S || excused(B) || !fi.reachable(S, B) || !fi.reachable(B, S) {
+			continue
+		}
+		seen := map[*ssa.BasicBlock]bool{}
+		var dfs func(x *ssa.BasicBlock) bool
+		dfs = func(x *ssa.BasicBlock) bool {
+			for k, sc := range x.Succs {
+				if deadEdge(x, k) || sc == S || excused(sc) {
+					continue
+				}
+				if sc == B {
+					return true
+				}
+				if !seen[sc] {
+					seen[sc] = true
+					if dfs(sc) {
+						return true
+					}
+				}
+			}
+			return false
+		}
+		if dfs(B) {
 			return true
 		}
 	}
